@@ -250,4 +250,13 @@ CHECKS = {
         "note": "Added after the design phase: the first draft listed C13 as not applicable; these clauses are shape-visible necessary conditions (breaking one breaks the join).",
         "technique": "dominance / branch-guard analysis and component-wise def-use tracing on rustc MIR",
     },
+    "C25": {
+        "text": "Partial, static (the ordering constraints a reference creates reach the scheduler; MIR of flat_to_partitioned.rs, all paths): for every handoff reference the producer is inserted "
+                "as a same-tick predecessor of the borrower and the borrower as a predecessor of the handoff's pipe consumers, never filtered by tick_edges; the access groups of one reference "
+                "target are chained with overlapping windows and every member pair is emitted unconditionally; the pairs computed by find_access_group_ordering reach "
+                "find_subgraph_unionfind's access_group_pairs parameter (two call hops followed); those pairs and the (producer, borrower) pairs are also no-merge pairs of the merger. "
+                "That the resulting topological order is right for every graph and the resolution of singleton references are NOT decided.",
+        "note": "Added in the build phase from rules shared with C18/C19 (first listed as not applicable because it depends on the partitioner's order; the constraint-feeding clauses are shape-visible).",
+        "technique": "dominance / branch-guard analysis + interprocedural argument-flow (who-feeds-whom) on rustc MIR",
+    },
 }
